@@ -1023,6 +1023,8 @@ def run_settings(ctx, cfg, res=None, only=None):
     if res is None:
         res = ctx.check_spec('settings-walks', 'MC_EmissionSettings', cfg, workers=1, deque=True)
     walks = res.tagged('SWALK')
+    if '_routes_' in cfg:
+        return run_settings_routes(ctx, cfg, walks, only)
     # what makes the remembered state observable: both quadrature routes in one walk in both orders, the count of the start
     # asked for again after a user rule, a mode switch after an evaluation, a radius change through both routes
     def has(w, *names):
@@ -1045,6 +1047,33 @@ def run_settings(ctx, cfg, res=None, only=None):
             os.makedirs(kd)
             nev += fxs.run_world(ctx, fxs.World(kind, iso, kd, ctx.seed), walks, code_raised, cfg)
     ctx.add_sample(dict(settings_walk=walks[len(walks) // 2]))
+    fx.reset_all()
+    return nev
+
+
+def run_settings_routes(ctx, cfg, walks, only=None):
+    """Round 6, route x history: the walks over the settings that move the layer profiles (planet radius through both routes,
+    temperature point, mixing ratio; opacity mode), evaluated through model() / model_contrib() / model_full_contrib()
+    (thorough: partial_model() too) in every order."""
+    def sets(w):
+        return [s[1] for s in w['walk'] if s[0] == 'set']
+    def last_eval_after(w, name, entry):      # a change of `name` directly followed by an evaluation through `entry`
+        return any(a[0] == 'set' and a[1] == name and b[0] == 'eval' and b[1] == entry for a, b in zip(w['walk'], w['walk'][1:]))
+    names = ('rp', 'tp', 'mix') + (('mode',) if {w['init']['mode'] for w in walks} >= {'xsec', 'ktables'} else ())
+    need = [any(last_eval_after(w, n, e) for w in walks) for n in names for e in ('model', 'contrib', 'full_contrib')]
+    need += [any(w['walk'][1][:2] == ['eval', 'model'] and w['walk'][-1][1] == e and sets(w)[1] == n for w in walks if len(w['walk']) == 4)
+             for n in ('rp', 'tp', 'mix') for e in ('contrib', 'full_contrib')]
+    if len(walks) < 250 or not all(need):
+        raise Machinery('%s exports too few route walks (%d; coverage %r)' % (cfg, len(walks), need))
+    nev = 0
+    with fx.TempDir() as root:
+        for kind, iso in SETTINGS_WORLDS['quick' if cfg.endswith('quick.cfg') else 'thorough']:
+            if (only is not None and only != (kind, iso)) or (iso and cfg.endswith('quick.cfg')):
+                continue         # quick: the worlds in which the layer profiles matter (thorough: all)
+            kd = os.path.join(root, 'r_%s_%s' % (kind, iso))
+            os.makedirs(kd)
+            nev += fxs.run_world(ctx, fxs.World(kind, iso, kd, ctx.seed), walks, code_raised, cfg)
+    ctx.add_sample(dict(settings_route_walk=walks[len(walks) // 2]))
     fx.reset_all()
     return nev
 
@@ -1148,6 +1177,7 @@ def _run(ctx, q, pf):
     ip_cfg = 'EX_Emission_interp.cfg' if q else 'EX_Emission_interp_thorough.cfg'
     k_cfgs = ['EX_EmissionK_quick.cfg', 'EX_EmissionK_quick3.cfg'] if q else ['EX_EmissionK_thorough.cfg', 'EX_EmissionK_quick3.cfg']
     s_cfg = 'EX_EmissionSettings_quick.cfg' if q else 'EX_EmissionSettings_thorough.cfg'
+    sr_cfg = 'EX_EmissionSettings_routes_quick.cfg' if q else 'EX_EmissionSettings_routes_thorough.cfg'
     c_cfgs = ['MC_EmissionCalls_quick.cfg'] if q else ['MC_EmissionCalls_thorough.cfg', 'MC_EmissionCalls_thorough3.cfg']
     exhaustive = [('exhaustive', 'MC_Emission', 'MC_Emission_%s.cfg' % ctx.tier, ('Surface', 'Layer', 'Integrate', 'Normalise')),
                   ('exhaustive-quadratures', 'MC_Emission', 'MC_Emission_quads.cfg', ())]
@@ -1181,6 +1211,7 @@ def _run(ctx, q, pf):
     for cfg in c_cfgs:
         pf.submit('calls-' + cfg[17:-4], 'MC_EmissionCalls', cfg, workers=1, deque=True)
     pf.submit('settings-walks', 'MC_EmissionSettings', s_cfg, workers=1, deque=True)
+    pf.submit('settings-route-walks', 'MC_EmissionSettings', sr_cfg, workers=1, deque=True)
     refutes = [('refute-clamp-one-side', 'MC_Emission', 'MC_Emission_refute_clamp.cfg', 'Telescoping'),
                ('refute-range-off-by-one', 'MC_Emission', 'MC_Emission_refute_range.cfg', 'IsothermalIdentity'),
                ('refute-weights', 'MC_Emission', 'MC_Emission_refute_weights.cfg', 'FluxIsothermalIdentity'),
@@ -1189,7 +1220,8 @@ def _run(ctx, q, pf):
                ('refute-star-spectrum-rescaled-in-place', 'MC_EmissionCalls', 'MC_EmissionCalls_refute_sed.cfg', 'EveryPathDocumented')]
     refutes += [('refute-geometry-factor-computed-at-build', 'MC_EmissionSettings', 'MC_EmissionSettings_refute_geometry_at_build.cfg', 'EvalUsesCurrent'),
                 ('refute-set_num_gauss-skips-remembered-count', 'MC_EmissionSettings', 'MC_EmissionSettings_refute_same_count_skipped.cfg', 'EvalUsesCurrent'),
-                ('refute-opacity-mode-memoised', 'MC_EmissionSettings', 'MC_EmissionSettings_refute_mode_memoised.cfg', 'EvalUsesCurrent')]
+                ('refute-opacity-mode-memoised', 'MC_EmissionSettings', 'MC_EmissionSettings_refute_mode_memoised.cfg', 'EvalUsesCurrent'),
+                ('refute-contribution-routes-reuse-profiles', 'MC_EmissionSettings', 'MC_EmissionSettings_refute_profiles_once.cfg', 'EvalUsesCurrent')]
     if not q:
         refutes += [('refute-star-spectrum-rescaled-in-place (shared arrays)', 'MC_EmissionCalls', 'MC_EmissionCalls_refute_sed_readonly.cfg', 'InputsReadOnly'),
                     ('refute-opacity-rescaled-in-place', 'MC_EmissionCalls', 'MC_EmissionCalls_refute_opacity.cfg', 'EveryPathDocumented')]
@@ -1223,6 +1255,8 @@ def _run(ctx, q, pf):
     # ---- settings walks
     run_settings(ctx, s_cfg, res=pf.check_spec(ctx, 'settings-walks'))
     _tick('settings ' + s_cfg)
+    run_settings(ctx, sr_cfg, res=pf.check_spec(ctx, 'settings-route-walks'))
+    _tick('settings ' + sr_cfg)
     # ---- binding B
     run_traces(ctx, 60 if q else 600, 16 if q else 160, 12 if q else 120, planck=True, require_cover=True)
     _tick('traces')
